@@ -271,5 +271,13 @@ def handle(cmd, args):
         if r is None:
             return 'none'
         return '(some (' + ' '.join(sx.pat_to_s(pyconv.from_py(v, None, False)) for v in r) + '))'
+    from harness.py import py_module
+    r = py_module.handle(cmd, args)
+    if r is not None:
+        return r
+    from harness.py import py_mm
+    r = py_mm.handle(cmd, args)
+    if r is not None:
+        return r
     from harness.py import py_cmds2
     return py_cmds2.handle(cmd, args)
